@@ -94,6 +94,14 @@ func (t *SensitiveType) Generic() px.Type {
 	return NewSensitiveType(px.GenericType(t.typ))
 }
 
+func (t *SensitiveType) Get(key string) (value px.Value, ok bool) {
+	switch key {
+	case `type`:
+		return t.typ, true
+	}
+	return nil, false
+}
+
 func (t *SensitiveType) IsAssignable(o px.Type, g px.Guard) bool {
 	if ot, ok := o.(*SensitiveType); ok {
 		return GuardedIsAssignable(t.typ, ot.typ, g)
